@@ -14,7 +14,8 @@ THEOREMS = ["c13_only_attributes_change", "c13_item_attributes", "c13_method_att
 
 THEOREMS_T = ["c13_translated_items_keep_foreign_attributes", "c13_translated_methods", "c13_translated_parameters",
               "c13_translated_remove_input_attr"]
-THEOREMS_P = ["c13_translated_framework_attributes", "c13_translated_framework_attribute_names"]
+THEOREMS_P = ["c13_translated_framework_attributes", "c13_translated_framework_attribute_names",
+              "c13_regenerated_table_is_the_translated_function"]
 
 HEADER = ("From Coq Require Import String List.\nImport ListNotations.\nRequire Import SV.Model.GenTables SV.Model.Strip.\n"
           "Open Scope string_scope.\n")
